@@ -1,6 +1,7 @@
 package netty
 
 import (
+	"context"
 	"errors"
 	"io"
 
@@ -48,6 +49,7 @@ func (p *zzLife) HandleRead(ctx InboundContext, message Message) {
 	r := message.(io.Reader)
 	func() {
 		defer func() { p.inRead = false }()
+		vrt.Yield() // a handler takes time: "read delivery in progress" is an observable state
 		n := utils.AssertLength(r.Read(buf[:]))
 		p.data = append(p.data, buf[:n]...)
 	}()
@@ -106,7 +108,8 @@ func ZZ_C05_Lifecycle(q, closers, handlerClose, nreads, rkind, swallow int) {
 	}
 	pl := NewPipeline()
 	pl.AddLast(probe)
-	ch := newChannelWith(vrtBackground(), pl, tr, AsyncExecutor(), 1, q, true).(*channel)
+	parent, cancelParent := context.WithCancel(vrtBackground())
+	ch := newChannelWith(parent, pl, tr, AsyncExecutor(), 1, q, true).(*channel)
 	winner := -1
 	tr.onClose = func() { winner = vrt.Self() }
 	pl.ServeChannel(ch)
@@ -117,6 +120,9 @@ func ZZ_C05_Lifecycle(q, closers, handlerClose, nreads, rkind, swallow int) {
 		k := k
 		vrt.Go("closer"+string(rune('0'+k)), func() {
 			ids[k] = vrt.Self()
+			if handlerClose == 4 && k == 0 {
+				cancelParent() // holder-driven shutdown: the parent context ends, then the channel is closed
+			}
 			ch.Close(errs[k])
 			vrt.Assert(!ch.IsActive(), "c05-inactive-after-any-close-returns")
 			if winner == ids[k] {
